@@ -9,7 +9,12 @@
    route or the init-hash route) accepted in an environment built from accepted definitions — every
    history of definitions, any inheritance depth (induction over the history and the parent chain).
    `new_object d args = Ok o`: o is any object the constructor dispatch (named first, then positional)
-   builds from any argument list.
+   builds from any argument list.  `named_dispatch (d_info d) args = Some h`: the named constructor takes
+   the call (args is one Hash h that is an instance of the init Struct); `= None`: the positional one is
+   tried (a single Hash can still be a positional argument when the first attribute has type Any).
+   Attribute types: Integer[lo,hi], String, Boolean, Optional[T], Array[T], Any, Undef, Variant[Undef,T] —
+   so a given_or_derived attribute may (Optional) or may not (Any, Undef, Variant) carry the implicit value
+   undef; `default_of a` is undef for given_or_derived, the declared value otherwise.
    Guard.  `ser_complete d = true` excludes exactly the input class of the open finding
    `serialization-partial` (a `serialization` list that is not a duplicate-free enumeration of all
    constructor attributes); C17_statement is the unguarded statement, refuted below. *)
@@ -36,11 +41,26 @@ Print Assumptions C17_layout.
    {name_i => arg_i} and the two objects are equal (Equals in both directions). *)
 Theorem C17_pos_named_equal :
   forall d, accepted d -> ser_complete d = true ->
-  forall args o, positional args -> new_object d args = Ok o ->
-  exists o', new_object d [VHash (combine (map a_name (ai_attrs (d_info d))) args)] = Ok o' /\
-             obj_eqb o o' = Ok true /\ obj_eqb o' o = Ok true.
+  forall args o, named_dispatch (d_info d) args = None -> new_object d args = Ok o ->
+  let h := combine (map a_name (ai_attrs (d_info d))) args in
+  named_dispatch (d_info d) [VHash h] = Some h /\
+  exists o', new_object d [VHash h] = Ok o' /\ obj_eqb o o' = Ok true /\ obj_eqb o' o = Ok true.
 Proof. exact acc_pos_named_equal. Qed.
 Print Assumptions C17_pos_named_equal.
+
+(* ... and conversely: EVERY tuple (no longer than the layout) whose hash {name_i => arg_i} the named
+   constructor accepts is accepted by the positional constructor, with an equal object.  (Hypothesis
+   `named_dispatch .. args = None`: the tuple is not itself one named-argument hash.) *)
+Theorem C17_named_pos_equal :
+  forall d, accepted d -> ser_complete d = true ->
+  forall args o',
+  let h := combine (map a_name (ai_attrs (d_info d))) args in
+  (List.length args <= List.length (ai_attrs (d_info d)))%nat ->
+  named_dispatch (d_info d) [VHash h] = Some h -> new_object d [VHash h] = Ok o' ->
+  named_dispatch (d_info d) args = None ->
+  exists o, new_object d args = Ok o /\ obj_eqb o o' = Ok true /\ obj_eqb o' o = Ok true.
+Proof. exact acc_named_pos_equal. Qed.
+Print Assumptions C17_named_pos_equal.
 
 (* ---- rebuilding an object from its init-hash yields an equal object ----
    Every constructed object (either constructor): InitHash does not fault, the named constructor
@@ -48,30 +68,38 @@ Print Assumptions C17_pos_named_equal.
 Theorem C17_init_hash_roundtrip :
   forall d, accepted d -> ser_complete d = true ->
   forall args o, new_object d args = Ok o ->
-  exists h o', init_hash o = Ok h /\ new_object d [VHash h] = Ok o' /\
+  exists h o', init_hash o = Ok h /\ named_dispatch (d_info d) [VHash h] = Some h /\ new_object d [VHash h] = Ok o' /\
                obj_eqb o o' = Ok true /\ obj_eqb o' o = Ok true.
 Proof. exact acc_init_hash_roundtrip. Qed.
 Print Assumptions C17_init_hash_roundtrip.
 
 (* ---- each attribute reads back the value given or its default ----
-   for every declared constructor attribute a of the type (own or inherited): *)
+   for every declared constructor attribute a of the type (own or inherited); an attribute that was not
+   given is optional (given_or_derived or with a declared value) and reads `default_of a`: *)
 Theorem C17_get_given_or_default_positional :
   forall d, accepted d -> ser_complete d = true ->
-  forall args o a, positional args -> new_object d args = Ok o ->
+  forall args o a, named_dispatch (d_info d) args = None -> new_object d args = Ok o ->
   In a (collect_attributes d) -> is_ctor_kind (a_kind a) = true ->
   exists i, nth_error (ai_attrs (d_info d)) i = Some a /\
     get o (a_name a) = Ok (Some (match nth_error args i with Some v => v | None => default_of a end)) /\
-    (nth_error args i = None -> a_value a <> None).
+    (nth_error args i = None -> is_opt_attr a = true).
 Proof. exact acc_get_positional. Qed.
 Print Assumptions C17_get_given_or_default_positional.
 
 Theorem C17_get_given_or_default_named :
   forall d, accepted d -> ser_complete d = true ->
-  forall h o a, new_object d [VHash h] = Ok o ->
+  forall args h o a, named_dispatch (d_info d) args = Some h -> new_object d args = Ok o ->
   In a (collect_attributes d) -> is_ctor_kind (a_kind a) = true ->
-  get o (a_name a) = Ok (Some (given_or_default h a)) /\ (hget h (a_name a) = None -> a_value a <> None).
+  get o (a_name a) = Ok (Some (given_or_default h a)) /\ (hget h (a_name a) = None -> is_opt_attr a = true).
 Proof. exact acc_get_named. Qed.
 Print Assumptions C17_get_given_or_default_named.
+
+(* the default of a given_or_derived attribute is undef, whether or not its type made it carry a value
+   (Optional[T]: the implicit value undef; Any, Undef, Variant[Undef,T]: no value at all) *)
+Theorem C17_given_or_derived_default_undef :
+  forall a, kind_eqb (a_kind a) KGivenOrDerived = true -> default_of a = VUndef.
+Proof. exact default_of_god. Qed.
+Print Assumptions C17_given_or_derived_default_undef.
 
 (* a constant reads its declared value; a constructor attribute read through the type
    (Member(n).Get(o)) gives what Get gives; reading never raises *)
@@ -144,22 +172,24 @@ Print Assumptions C17_ctor_reports.
 (* ---- the open finding: the unguarded statement is false of the faithful model ---- *)
 Definition C17_statement : Prop :=
   forall d, accepted d ->
-  forall args o a, positional args -> new_object d args = Ok o ->
+  forall args o a, named_dispatch (d_info d) args = None -> new_object d args = Ok o ->
   In a (collect_attributes d) -> is_ctor_kind (a_kind a) = true ->
   exists i, nth_error (ai_attrs (d_info d)) i = Some a /\
     get o (a_name a) = Ok (Some (match nth_error args i with Some v => v | None => default_of a end)).
 
 (* serialization => ['a'] with a and b required: Ta(1) is constructed, Get('b') finds nothing *)
 Theorem C17_serialization_partial_refuted :
-  exists d args o a, accepted d /\ ser_complete d = false /\ positional args /\ new_object d args = Ok o /\
-    In a (collect_attributes d) /\ is_ctor_kind (a_kind a) = true /\ a_value a = None /\
+  exists d args o a, accepted d /\ ser_complete d = false /\ named_dispatch (d_info d) args = None /\
+    new_object d args = Ok o /\
+    In a (collect_attributes d) /\ is_ctor_kind (a_kind a) = true /\ is_opt_attr a = false /\
     get o (a_name a) = Ok None.
 Proof. exact serialization_omit_refuted. Qed.
 Print Assumptions C17_serialization_partial_refuted.
 
 (* serialization => ['a','a']: Ta(1, 2) is constructed, the value given at position 0 does not read back *)
 Theorem C17_serialization_twice_refuted :
-  exists d args o a, accepted d /\ ser_complete d = false /\ positional args /\ new_object d args = Ok o /\
+  exists d args o a, accepted d /\ ser_complete d = false /\ named_dispatch (d_info d) args = None /\
+    new_object d args = Ok o /\
     nth_error (ai_attrs (d_info d)) 0 = Some a /\ nth_error args 0 = Some (VInt 1) /\
     get o (a_name a) = Ok (Some (VInt 2)).
 Proof. exact serialization_twice_refuted. Qed.
@@ -191,7 +221,8 @@ Example C17_nonvacuous :
         obj_eqb o1 o2 = Ok true /\ obj_eqb o1 o3 = Ok false /\
         get o1 (s2l "b") = Ok (Some (VInt 5)) /\ attr_get o1 (s2l "k") = AVal (VInt 9) /\
         init_hash o3 = Ok [(s2l "a", VInt 2); (s2l "c", VStr (s2l "x"))] /\
-        instance_of ta o1 = true /\ instance_of tb oa = false /\ positional [VInt 1; VStr (s2l "x")]
+        instance_of ta o1 = true /\ instance_of tb oa = false /\
+        named_dispatch (d_info tb) [VInt 1; VStr (s2l "x")] = None
       | _, _, _, _ => False
       end
     | Err _ => False
@@ -204,5 +235,43 @@ Proof.
   split.
   { change [ta; tb] with (([] ++ [ta]) ++ [tb])%list. eapply ae_def; [eapply ae_def; [constructor|exact Ea]|exact Eb]. }
   vm_compute in Ea. inversion Ea; subst ta. clear Ea. vm_compute in Eb. inversion Eb; subst tb. clear Eb.
-  vm_compute. repeat split; try reflexivity. intros h H; discriminate.
+  vm_compute. repeat split; try reflexivity.
+Qed.
+
+(* ---- non-vacuity of the given_or_derived clauses: attributes whose type accepts undef without being an
+        Optional carry NO value; read after a positional construction that omits them they are undef, the
+        named counterpart stores the undef, the two objects are equal and so is the one rebuilt from the
+        init-hash; with a serialization list the required count does not include them ----
+   type Tg = Object[{attributes => {a => Integer, g => {type => Any, kind => given_or_derived},
+                                    v => {type => Variant[Undef,String], kind => given_or_derived},
+                                    o => {type => Integer, kind => given_or_derived}},
+                     serialization => ['a', 'o', 'g', 'v']}] *)
+Definition ex_god (t : ty) : value := VHash [(k_type, VType t); (k_kind, VStr s_given_or_derived)].
+Definition ex_tg : value :=
+  VHash [(k_attributes, VHash [(s2l "a", VType (TInteger min_int64 max_int64)); (s2l "g", ex_god TAny);
+                               (s2l "v", ex_god (TVarUndef TString)); (s2l "o", ex_god (TInteger min_int64 max_int64))]);
+         (k_serialization, VArr [VStr (s2l "a"); VStr (s2l "o"); VStr (s2l "g"); VStr (s2l "v")])].
+
+Example C17_given_or_derived_nonvacuous :
+  match define RText [] (s2l "Tg") ex_tg with
+  | Ok tg =>
+    accepted tg /\ ser_complete tg = true /\ ai_req (d_info tg) = 1%nat /\
+    map (fun a => (a_type a, a_value a)) (ai_attrs (d_info tg)) =
+      [(TInteger min_int64 max_int64, None); (TOptional (TInteger min_int64 max_int64), Some VUndef);
+       (TAny, None); (TVarUndef TString, None)] /\
+    match new_object tg [VInt 1], new_object tg [VHash [(s2l "a", VInt 1)]], new_object tg [VInt 1; VUndef; VStr (s2l "x")] with
+    | Ok o1, Ok o2, Ok o3 =>
+      o_vals o1 = [VInt 1] /\ o_vals o2 = [VInt 1; VUndef; VUndef; VUndef] /\
+      get o1 (s2l "g") = Ok (Some VUndef) /\ get o1 (s2l "v") = Ok (Some VUndef) /\ get o1 (s2l "o") = Ok (Some VUndef) /\
+      attr_get o1 (s2l "g") = AVal VUndef /\
+      obj_eqb o1 o2 = Ok true /\ obj_eqb o2 o1 = Ok true /\ obj_eqb o1 o3 = Ok false /\
+      init_hash o2 = Ok [(s2l "a", VInt 1)] /\ init_hash o3 = Ok [(s2l "a", VInt 1); (s2l "g", VStr (s2l "x"))]
+    | _, _, _ => False
+    end
+  | Err _ => False
+  end.
+Proof.
+  destruct (define RText [] (s2l "Tg") ex_tg) as [tg|] eqn:E; [|vm_compute in E; discriminate].
+  split; [exact (accepted_single _ _ _ E)|].
+  vm_compute in E. inversion E; subst tg. clear E. vm_compute. repeat split; reflexivity.
 Qed.
